@@ -1,5 +1,4 @@
 import PyomaVerif.Model.Defaults
-import PyomaVerif.Model.Mpe
 /-!
 # Default values as regenerated obligations (C01, C05, C06, C07, C09, C10, C11, C12, C13, C20)
 
